@@ -1006,6 +1006,12 @@ func callBuiltin(caller *frame, fn *ssa.Builtin, args []value) value {
 		for i := 0; i < n; i++ {
 			logCell(&dst[i])
 		}
+		if ex != nil && ex.par != nil {
+			sv := src.([]value)
+			for i := 0; i < n; i++ {
+				ex.par.access(&sv[i], false)
+			}
+		}
 		return copy(dst, src.([]value))
 
 	case "close": // close(chan T)
@@ -1305,6 +1311,25 @@ func conv(t_dst, t_src types.Type, x value) value {
 
 		case types.Rune:
 			x := x.([]value)
+			anySym := false
+			for i := range x {
+				if isSym(x[i]) {
+					anySym = true
+				}
+			}
+			if anySym {
+				var cells []value
+				for i := range x {
+					if sv, ok := x[i].(symv); ok {
+						cells = append(cells, encodeRuneSym(sv)...)
+					} else {
+						for _, bb := range []byte(string(x[i].(rune))) {
+							cells = append(cells, bb)
+						}
+					}
+				}
+				return normStr(symstr(cells))
+			}
 			r := make([]rune, 0, len(x))
 			for i := range x {
 				r = append(r, x[i].(rune))
